@@ -3,6 +3,7 @@ CONSTANTS
   KMax = 2
   MaxSteps = 2
   WithObs = FALSE
+  PurgeByKey = FALSE
   PurgeLast = FALSE
   Kinds = {"pos", "fail", "cut", "ask"}
 INIT Init
